@@ -72,7 +72,17 @@ func (c *Chain) ftAbs() (ftState, []string) {
 	return st, bad
 }
 
-var ftSegs = []string{"home", "docs", "pics", "a", "b", "日本", "x y", "", "s", "50% off", "100%", "a%%b", "%s", "%5d", "tab\there", "quote\"q", "é"}
+var ftSegs = []string{"home", "docs", "pics", "a", "b", "日本", "x y", "", "s", "50% off", "100%", "a%%b", "%s", "%5d", "tab\there", "quote\"q", "é",
+	"cafe\u0301.txt", "caf\u00e9.txt", "\u212b", "\ufb01le", ".", ".."}
+
+// clientJ: what the client-side message builder puts into MsgPostFile for a plain path
+func clientJ(path string) []string {
+	m, err := fttypes.CreateMsgPostFile("jkl1xxxxxxxxxxxxxxxxxxxxxxxxxxxxxxxxxxxxxx", path, []byte("{}"), "t")
+	if err != nil || m == nil {
+		return []string{"error", "error"}
+	}
+	return []string{m.HashParent, m.HashChild}
+}
 
 func helperJ(path string) []string {
 	a, b := fttypes.MerkleHelper(path)
@@ -100,6 +110,9 @@ func runFiletree(seed int64, histories, steps int, out *Emitter) {
 		for _, u := range c.Users {
 			actors = append(actors, u.String())
 		}
+		// one account also signs under the all-upper-case spelling of its address (valid bech32, same
+		// signer): identities in the file tree are hashes of the signer string as sent
+		actors = append(actors, strings.ToUpper(actors[1]))
 		c.Begin(6 * time.Second)
 		tracking := func() string { return fmt.Sprintf("t%d", r.Intn(4)) }
 		mkAcl := func(kind string, tr string, who []string) string {
@@ -149,7 +162,8 @@ func runFiletree(seed int64, histories, steps int, out *Emitter) {
 					"merklePath": fttypes.MerklePath(p), "childHash": hexHash(child),
 					"added":  fttypes.AddToMerkle(fttypes.MerklePath(p), hexHash(child)),
 					"joined": fttypes.MerklePath(p + "/" + child), "trailing": fttypes.MerklePath(p + "/"),
-					"helpers": [][]string{helperJ(p), helperJ(p + "/" + child), helperJ(p + "/")}, "op": "path", "ok": true})
+					"helpers": [][]string{helperJ(p), helperJ(p + "/" + child), helperJ(p + "/")},
+					"client":  [][]string{clientJ(p), clientJ(p + "/" + child), clientJ(p + "/")}, "op": "path", "ok": true})
 				out.Count("path.merklePath", true)
 			}
 			files := c.A.FileTreeKeeper.GetAllFiles(c.Ctx())
